@@ -117,6 +117,7 @@ func c11ConcRound(t *testing.T, r *vrep.Report, round int) {
 		key  int
 		kind string
 		prev int // cas: 0 = last value this worker observed, 1 = not-exist, 2 = a value nobody wrote
+		ctx  c11CtxPlan
 	}
 	plans := make([][]plan, nWorkers)
 	for w := range plans {
@@ -132,6 +133,19 @@ func c11ConcRound(t *testing.T, r *vrep.Report, round int) {
 			default:
 				p.kind = "cas"
 				p.prev = []int{0, 0, 0, 1, 1, 2}[rng.Intn(6)]
+			}
+			switch x := rng.Intn(20); {
+			case x < 13:
+			case x < 14:
+				p.ctx = c11CtxPlan{Kind: "cancel-after"}
+			case x < 17:
+				p.ctx = c11CtxPlan{Kind: "cancel-at"}
+			default:
+				p.ctx = c11CtxPlan{Kind: "deadline-at"}
+			}
+			if p.ctx.during() {
+				p.ctx.At = []int{0, 0, 0, 1, 1, 2}[rng.Intn(6)]
+				p.ctx.Deliver = rng.Intn(2) == 0
 			}
 			plans[w] = append(plans[w], p)
 		}
@@ -170,7 +184,6 @@ func c11ConcRound(t *testing.T, r *vrep.Report, round int) {
 	var mu sync.Mutex
 	var hist []c11HistOp
 	var wg sync.WaitGroup
-	ctx := context.Background()
 	for w := 0; w < nWorkers; w++ {
 		w := w
 		wg.Add(1)
@@ -183,6 +196,7 @@ func c11ConcRound(t *testing.T, r *vrep.Report, round int) {
 				h := c11HistOp{Worker: w, Key: string(k), In: c11KVIn{Kind: p.kind}}
 				val := fmt.Sprintf("w%d.%d", w, i)
 				var err error
+				ctx := c11NewCtx(p.ctx) // the hook finds the call's context discipline through the derived contexts
 				func() {
 					defer func() {
 						if pv := recover(); pv != nil {
@@ -251,10 +265,25 @@ func c11ConcRound(t *testing.T, r *vrep.Report, round int) {
 						}
 					}
 				}()
+				if p.ctx.Kind == "cancel-after" {
+					ctx.end(context.Canceled, -1)
+				}
+				ended, _ := ctx.endedDuring()
+				ctx.end(context.Canceled, -1)
+				r.Count("conc_ctx_"+p.ctx.name()+"_calls", 1)
+				if ended {
+					r.Count("conc_ctx_"+p.ctx.name()+"_ended_during_call", 1)
+					if err != nil {
+						r.Count("conc_ctx_"+p.ctx.name()+"_call_failed", 1)
+					}
+				}
 				if err != nil {
 					h.Err = err.Error()
 					h.Out = c11KVOut{Unknown: true}
 					r.Count("conc_op_errors", 1)
+					if !ended {
+						r.Count("conc_op_errors_with_live_context", 1)
+					}
 				}
 				mu.Lock()
 				hist = append(hist, h)
@@ -301,7 +330,7 @@ func c11ConcRound(t *testing.T, r *vrep.Report, round int) {
 	for _, k := range keys {
 		v := env.raw.RawGet("", k)
 		final[string(k)] = c11KVOut{Present: v != nil, V: string(v)}
-		cv, err := env.clients[0].Get(ctx, k)
+		cv, err := env.clients[0].Get(context.Background(), k)
 		if err == nil && ((cv == nil) != (v == nil) || !bytes.Equal(cv, v)) {
 			r.Violate("get:final-read-differs-from-store", fmt.Sprintf("after the round Get(%s)=%s but the store holds %s", c11q(k), c11q(cv), c11q(v)), map[string]any{"round": round})
 		}
